@@ -94,6 +94,53 @@ def canon_cmp(op, l, r):
     return Term("cmp", op, l, r)
 
 
+def ctext_concat(parts):
+    """flat text term: adjacent strings merged, nested ctext spliced"""
+    out = []
+    for p in parts:
+        if isinstance(p, Term) and p.head == "ctext":
+            items = list(p.args)
+        else:
+            items = [p]
+        for it in items:
+            if isinstance(it, str) and out and isinstance(out[-1], str):
+                out[-1] += it
+            elif it != "":
+                out.append(it)
+    if all(isinstance(x, str) for x in out):
+        return "".join(out)
+    return Term("ctext", *out)
+
+
+def pct_format(fmt, args):
+    """'..%s..%d..' % args with some symbolic arguments -> ctext term (symbolic arguments only under %s / %r)."""
+    import re
+    parts = []
+    pos = 0
+    k = 0
+    for m in re.finditer(r"%(%|[-#0 +]*\d*(?:\.\d+)?[sdxXrif])", fmt):
+        parts.append(fmt[pos:m.start()])
+        pos = m.end()
+        spec = m.group(0)
+        if spec == "%%":
+            parts.append("%")
+            continue
+        if k >= len(args):
+            raise Undetermined("not enough arguments for format string")
+        a = args[k]
+        k += 1
+        if _is_sym(a):
+            if spec not in ("%s", "%r"):
+                raise Undetermined("symbolic argument under %s" % spec)
+            parts.append(a)
+        else:
+            parts.append(spec % a)
+    parts.append(fmt[pos:])
+    if k != len(args):
+        raise Undetermined("too many arguments for format string")
+    return ctext_concat(parts)
+
+
 def _is_sym(v):
     if isinstance(v, Term):
         return True
@@ -332,12 +379,17 @@ class Interp(object):
         return bool(v)
 
     # ------------------------------------------------------------------ expressions
+    text_mode = False       # builders of source text (C): str % (symbolic,..) and str + symbolic give `ctext` terms
+
     def binop(self, op, l, r):
+        if op is ast.Mod and isinstance(l, str) and _is_sym(r):
+            return pct_format(l, r if (isinstance(r, tuple) and not isinstance(r, Term)) else (r,))
+        if self.text_mode and op is ast.Add and (isinstance(l, str) or (isinstance(l, Term) and l.head == "ctext")) \
+                and (isinstance(r, str) or (isinstance(r, Term) and r.head in ("ctext", "leaf", "sext", "zext"))):
+            return ctext_concat([l, r])
         if isinstance(l, Term) or isinstance(r, Term):
             return Term("op", _BIN_NAME[op], l, r)
         if op is ast.Mod and isinstance(l, str):
-            if _is_sym(r):
-                raise Undetermined("%-format with symbolic argument")
             return l % r
         return _BIN[op](l, r)
 
@@ -527,6 +579,13 @@ class Interp(object):
                 if name == "format":
                     return fmt_to_term(s, args, kwargs)
                 if name == "join" and len(args) == 1 and _is_sym(args[0]) and not isinstance(args[0], Term):
+                    if self.text_mode:
+                        items = []
+                        for i_, x_ in enumerate(args[0]):
+                            if i_:
+                                items.append(s)
+                            items.append(x_)
+                        return ctext_concat(items)
                     return Term("cat", s, *list(args[0]))
                 if _is_sym(args):
                     raise Undetermined("str.%s with symbolic argument" % name)
